@@ -436,7 +436,59 @@ def sweep_execute(case, stats):
     stats.note(case, True, classes=["sweep_" + case["kind"]])
 
 
+# ------------------------------------------------------------------------------------------ atheris (thorough)
+import collections
+
+COUNTERS = collections.Counter()
+FUZZ_ENTRIES = {"a": ["from_bytes", "xordecode_from_file", "pe_helpers_raw", "pe_helpers_xor"], "b": ["artifactkit", "parse_raw_http"]}
+
+
+def _fuzz(data, names):
+    data = bytes(data)
+    if detect.marker_count(data) > 8:
+        raise Discard("slow path")
+    eps = entry_points()
+    for name in names:
+        try:
+            eps[name](data)
+            COUNTERS[name + ":returned"] += 1
+        except ValueError:
+            COUNTERS[name + ":valueerror"] += 1
+        except Exception as e:
+            raise Violation(exc_key(e), f"{name} raised {type(e).__name__}: {str(e)[:200]} on a {len(data)}-byte fuzz input")
+
+
+def fuzz_extract(data):
+    _fuzz(data, FUZZ_ENTRIES["a"])
+
+
+def fuzz_scanners(data):
+    _fuzz(data, FUZZ_ENTRIES["b"])
+
+
+def fuzz_execute(case, stats):
+    run_entries(case["data"], [case["entry"]] if "entry" in case else FUZZ_ENTRIES["a"] + FUZZ_ENTRIES["b"], stats, what="fuzz replay")
+    stats.note({"d": case["data"]}, True, classes=["fuzz_replay"])
+
+
+def fuzz_custom(tier, seed, shard, nshards, stats, rec):
+    if tier != "thorough":
+        return
+    from ..fuzz.run import campaign
+
+    rnd = random.Random(1)
+    seeds = []
+    if shard % 2 == 0:
+        for base in ({"kind": "rawcfg", "key": 0x2E, "n": 5, "short": True, "ua_edge": False}, {"kind": "pe", "arch": "x86", "key": 0x2E, "n": 3, "short": True, "ua_edge": False}, {"kind": "xorpe", "arch": "x64", "key": 0x69, "n": 7, "short": True, "ua_edge": True}):
+            view, lm, enc = build_base(base, rnd)
+            seeds.append(enc(view))
+    target = "fuzz_extract" if shard % 4 < 2 else "fuzz_scanners"
+    campaign("harness.props.c08", target, seeds if target == "fuzz_extract" else [b"GET / HTTP/1.1\r\n\r\n"][: len(seeds)], runs=4000 if target == "fuzz_extract" else 150000, seed=seed, stats=stats, max_len=2048)
+    stats.note({"shard": shard, "target": target, "seeded": bool(seeds)}, True, classes=["atheris_" + target])
+
+
 SUBS = [
+    Sub("atheris_entry_points", fuzz_execute, custom=fuzz_custom, shards={"quick": 1, "thorough": 8}),
     Sub("raw_bytes", raw_execute, strategy=raw_strategy, examples={"quick": 1600, "thorough": 48000}),
     Sub("structured_faults", fault_execute, strategy=fault_strategy, examples={"quick": 1600, "thorough": 48000}),
     Sub("truncation_sweep", sweep_execute, enumerate=sweep_enumerate, exhaustive=True),
